@@ -8,6 +8,7 @@
 -/
 import SmsVerif.Model.Gsm7
 import SmsVerif.Lemmas.Pack
+import SmsVerif.Lemmas.Unpack
 import SmsVerif.Spec.Gsm7
 import SmsVerif.Gen.Tables
 
@@ -208,6 +209,20 @@ theorem C08_packSpec_length (s : List Nat) : (packSpec s).length = (7 * s.length
 /-! ### non-vacuity / sanity on concrete values (tests, labelled as such) -/
 
 example : encode T [49, 50, 64, 91, 8364] = some [0x31, 0x32, 0x00, 0x1B, 0x3C, 0x1B, 0x65] := by decide
+/-- **Unpack ∘ Pack** for the library's own unpacker, which is not told the septet count: the
+    septets come back, except in exactly the two situations in which the packed octets do not
+    determine how many septets there are -/
+theorem C08_unpack_pack (s : List Nat) (h : ∀ x ∈ s, x < 128) (ha : endsInLostAt s = false)
+    (hcr : ¬ (s.length % 8 = 0 ∧ s.getLast? = some 0x0D)) : unpackGo (packGo s) = s :=
+  unpackGo_packGo s h ha hcr
+
+/-- the two carve-outs are real: a message of eight septets ending in `@` after a septet below 64
+    loses the `@`; one ending in CR loses the CR -/
+example : unpackGo (packGo [1, 2, 3, 4, 5, 6, 7, 0]) = [1, 2, 3, 4, 5, 6, 7] := by decide
+example : unpackGo (packGo [1, 2, 3, 4, 5, 6, 7, 0x0D]) = [1, 2, 3, 4, 5, 6, 7] := by decide
+/-- … and `@` after a septet of 64 or more survives -/
+example : unpackGo (packGo [1, 2, 3, 4, 5, 6, 64, 0]) = [1, 2, 3, 4, 5, 6, 64, 0] := by decide
+
 example : packGo [0x31, 0x32, 0x33, 0x34, 0x35, 0x36, 0x37] = packSpec [0x31, 0x32, 0x33, 0x34, 0x35, 0x36, 0x37] := by decide
 example : unpackGo (packGo [0x31, 0x32, 0x33, 0x34, 0x35, 0x36, 0x37, 0x00, 0x61]) = [0x31, 0x32, 0x33, 0x34, 0x35, 0x36, 0x37, 0x00, 0x61] := by decide
 
@@ -240,4 +255,5 @@ open SmsVerif.C08
 #print axioms C08_packSpec_length
 #print axioms C08_pack_is_spec
 #print axioms C08_handset_reads_back
+#print axioms C08_unpack_pack
 end
